@@ -341,6 +341,25 @@ def _s1c(program, res):
                         f"would be merged into one SELECT and see the old value", n.stmt)
         else:
             res.ok("C04-S1", "declared dependencies of a windowed term include its own columns, partition_by and order_by")
+    # the contention test reads the sub-step's terms through the keys of its declared dependencies; select / drop_columns trim the terms in
+    # place without trimming the dependencies, so the lookup must tolerate a missing key
+    for fn_ in [n_ for n_ in ast.walk(f.node) if isinstance(n_, ast.FunctionDef) and n_ is not f.node]:
+        ps = [a.arg for a in fn_.args.kwonlyargs + fn_.args.args]
+        if len(ps) != 2:
+            continue
+        for c in ast.walk(fn_):
+            if isinstance(c, (ast.ListComp, ast.GeneratorExp)) and isinstance(c.generators[0].iter, ast.Call) and isinstance(c.generators[0].iter.func, ast.Attribute) \
+                    and c.generators[0].iter.func.attr == "items" and isinstance(c.generators[0].iter.func.value, ast.Name) and c.generators[0].iter.func.value.id in ps:
+                dep = c.generators[0].iter.func.value.id
+                other = [p_ for p_ in ps if p_ != dep][0]
+                hard = [x for x in ast.walk(c) if isinstance(x, ast.Subscript) and isinstance(x.value, ast.Name) and x.value.id == other and isinstance(x.ctx, ast.Load)]
+                if hard:
+                    res.fail_at("C04-S1", f, f"terms-indexed-by-dependency-keys:{fn_.name}",
+                                f"{fn_.name} indexes `{other}` with every key of `{dep}` (`{unparse(hard[0])}`): after select_columns / drop_columns trimmed the "
+                                f"sub-step's terms, extend(..., partition_by=['g']).drop_columns(['g']).extend(...) raises KeyError with allow_extend_merges and "
+                                f"works without it", hard[0])
+                else:
+                    res.ok("C04-S1", f"{fn_.name} reads `{other}` with .get(): terms trimmed by select / drop_columns are tolerated")
     # merge guard depends on all contention sets
     merged_ret = None
     for r in g.returns():
